@@ -1102,12 +1102,13 @@ def r_legacy_map(model, rep):
     # images <= 1.0: subvariant default "", format default "iso"
     f = model.own_method("images.Image", "deserialize")
     cx = facts.fctx(model, f)
-    sv = [ev for ev in cx.events if ev.kind == "store" and cx.self_attr(ev.target) == "subvariant"]
-    old = [ev for ev in sv if facts.active_at(ev, (1, 0)) and not facts.active_at(ev, (1, 1))]
-    new = [ev for ev in sv if facts.active_at(ev, (1, 1))]
     IN = P(cx.params[1])
-    ok = len(old) == 1 and old[0].value == ("call", ("attr", IN, "get"), (("const", "subvariant"), ("const", "")), ()) \
-        and len(new) == 1 and new[0].value == ("sub", IN, ("const", "subvariant"))
+    # what a 1.0 document and a 1.1 document make of the key (separate stores under a gate, one store of a conditional value, a
+    # version-dependent default ... alike)
+    old = [facts.pick_at_version(r.value, (1, 0)) for r in facts.reader_reads(model, f, version=(1, 0)) if r.attr == "subvariant"]
+    new = [facts.pick_at_version(r.value, (1, 1)) for r in facts.reader_reads(model, f, version=(1, 1)) if r.attr == "subvariant"]
+    ok = old == [("call", ("attr", IN, "get"), (("const", "subvariant"), ("const", "")), ())] \
+        and new == [("sub", IN, ("const", "subvariant"))]
     rep.ob("R-LEGACY-MAP", "images.Image.deserialize:subvariant", ok, site=cx.site(f.node),
            msg="" if ok else "subvariant must default to '' up to format 1.0 and be mandatory from 1.1 on")
     # rpms 0.3
